@@ -103,6 +103,28 @@ def hae_scenario(name, case):
             "prep": {"c": prep}, "stimuli": st}
 
 
+def hrv_scenario(name, case):
+    """one (voter state, two RequestVote requests, optional crash between) case of the TLC-enumerated domain"""
+    st = [{"op": "adv", "d": 350},
+          {"op": "inject", "n": "c", "kind": "rv", "from": case["c1"], "req": case["r1"], "exp": case["e1"]}]
+    if case["crash"]:
+        st += [{"op": "crash", "n": "c"}, {"op": "restart", "n": "c"}]
+    st += [{"op": "adv", "d": 350},
+           {"op": "inject", "n": "c", "kind": "rv", "from": case["c2"], "req": case["r2"], "exp": case["e2"]}]
+    return {"name": name, "family": "hrv", "voters": ["a", "b", "c"], "no_start": ["a", "b"], "controlled": True, "auto": False, "heal": False,
+            "prep": {"c": case["prep"]}, "stimuli": st}
+
+
+def fam_hrv_all(seed, tier):
+    cases = load_domain("hrv")
+    rng = random.Random(sseed(seed, "hrv", 0))
+    idx = list(range(len(cases)))
+    rng.shuffle(idx)
+    take = idx[:4000] if tier == "quick" else idx
+    return [hrv_scenario("hrv-%d" % k, cases[k]) for k in take], {"handler_domain": "hrv", "handler_domain_size": len(cases),
+                                                                  "handler_cases_run": len(take), "handler_domain_exhaustive": len(take) == len(cases)}
+
+
 def fam_hae_all(seed, tier):
     cases = load_domain("hae-K2T2")
     rng = random.Random(sseed(seed, "hae", 0))
@@ -341,7 +363,7 @@ PROPS = {
     "C05": dict(fams=[("reads", 5)], corpus=["reads"], mc="MC_reads"),
     "C06": dict(fams=[("core", 3), ("crash", 2)], corpus=["core", "crash"], mc="MC_core3", mc_deep="MC_core3_deep", gen=[("Gen_core3", ["a", "b", "c"], 40)], hae=True),
     "C07": dict(fams=[("core", 3), ("crash", 2)], corpus=["core", "crash"], mc="MC_core3", mc_deep="MC_core3_deep", gen=[("Gen_core3", ["a", "b", "c"], 40)]),
-    "C08": dict(fams=[("core", 2), ("crash", 3)], corpus=["core", "crash"], mc="MC_crash3", mc_deep="MC_crash3_deep"),
+    "C08": dict(fams=[("core", 2), ("crash", 3)], corpus=["core", "crash"], mc="MC_crash3", mc_deep="MC_crash3_deep", hrv=True),
     "C14": dict(fams=[("crash", 4), ("snap", 2)], corpus=["crash", "snap"], mc="MC_crash3", mc_deep="MC_crash3_deep"),
     "C09": dict(fams=[("member", 3), ("member5", 3)], corpus=["member"], mc="MC_member", monitor_props=["C01", "C02", "C07", "C09", "C05"]),
     "C10": dict(fams=[("snap", 6)], corpus=["snap"], mc="MC_snap3", gen=[("Gen_snap3", ["a", "b", "c"], 45)]),
@@ -374,6 +396,10 @@ def gen_scenarios(prop, tier, seed, workdir):
         EXTRA_COV.update(extra)
     if spec.get("hae"):
         a, extra = fam_hae_all(seed, tier)
+        scs += a
+        EXTRA_COV.update(extra)
+    if spec.get("hrv"):
+        a, extra = fam_hrv_all(seed, tier)
         scs += a
         EXTRA_COV.update(extra)
     return scs
